@@ -28,7 +28,7 @@ def main():
     n_ex = prop.n_exhaustive(a.tier) if hasattr(prop, "n_exhaustive") else 0
     n = a.n if a.n is not None else prop.budget(a.tier)
     idx = [("cx" if a.corr else "x", i) for i in range(n_ex)] + [("cr" if a.corr else "r", i) for i in range(n)]
-    fails = []; cnt = collections.Counter(); tags = collections.Counter()
+    fails = []; cnt = collections.Counter(); tags = collections.Counter(); allsig = collections.Counter()
     for kind, i in idx:
         if kind in ("x", "cx"):
             case = prop.exhaustive_case(i, a.tier)
@@ -47,7 +47,11 @@ def main():
             fails.append((kind, i, case, f))
             sig = prop.signature(case, f[0]) if hasattr(prop, "signature") else f[0].split(":")[0]
             cnt[sig] += 1
+            for x in f[1:]:
+                allsig[prop.signature(case, x) if hasattr(prop, "signature") else x.split(":")[0]] += 1
     print("%d failing of %d cases (%d exhaustive); signatures: %s" % (len(fails), len(idx), n_ex, dict(cnt)))
+    if allsig:
+        print("signatures of further failures of these cases: %s" % dict(allsig))
     seen = set()
     for kind, i, case, f in fails:
         sig = prop.signature(case, f[0]) if hasattr(prop, "signature") else f[0].split(":")[0]
